@@ -236,12 +236,24 @@ fn size_line_as(i: usize, template: &str, n: u64, form: SizeForm, curve: &str, i
 
 /// LessThan whose first input is range-checked by Num2Bits(k) (or not at all).
 fn less_than_lines(i: usize, k: Option<u64>, constant: bool, curve: &str) -> Line {
+    less_than_lines_shadowed(i, k, constant, curve, false)
+}
+
+/// `shadowed`: a nested block declares a second component of the same name, a `Num2Bits` of a size on the
+/// other side of the curve's threshold, fed by another signal; it says nothing about the first one's input.
+fn less_than_lines_shadowed(i: usize, k: Option<u64>, constant: bool, curve: &str, shadowed: bool) -> Line {
     let mut text = format!("    signal input q{i};\n");
     let mut ok = false;
     if let Some(k) = k {
         if constant {
             text.push_str(&format!("    component nb{i} = Num2Bits({k});\n    nb{i}.in <== q{i};\n"));
             ok = range_check_ok(k, curve);
+            if shadowed {
+                let other = if ok { 300 } else { 8 };
+                text.push_str(&format!(
+                    "    signal input r{i};\n    if (n > 1) {{\n        component nb{i} = Num2Bits({other});\n        nb{i}.in <== r{i};\n    }}\n"
+                ));
+            }
         } else {
             text.push_str(&format!("    component nb{i} = Num2Bits(n);\n    nb{i}.in <== q{i};\n"));
         }
@@ -443,7 +455,12 @@ fn random_case(ctx: &Ctx, tape: &[u8], rec: &Rec) -> Verdict {
                     1 => Some([61u64, 62, 63, 64, 251, 252, 253, 254, 255][t.below(9)]),
                     _ => Some(t.below(301) as u64),
                 };
-                less_than_lines(i, k, t.chance(220), curve)
+                let constant = t.chance(220);
+                let shadowed = t.chance(64);
+                if shadowed && constant && k.is_some() {
+                    rec.class("less_than_input_checked_by_a_component_whose_name_is_shadowed");
+                }
+                less_than_lines_shadowed(i, k, constant, curve, shadowed)
             }
         };
         rec.nontrivial(fnv(format!("{curve}/{}", l.text).as_bytes()));
